@@ -314,6 +314,8 @@ def build_family(seed):
         Cmd("Pri", name="при"),
         Cmd("Nihon", name="日本"),
         Cmd("Nikki", [Field("t", "str")], name="日記"),
+        Cmd("Nisshi", name="日誌"),
+        Cmd("Prigod", name="пригод"),
         Cmd("Emoji", name="😀😀x"),
     ])))
     # 6 single command
@@ -375,6 +377,16 @@ def build_family(seed):
     tops.append(Group("S11", [("A", "S11A", False), ("B", "S11B", False), ("C", "S11C", True)]))
     # 12 group over nested sub-commands and long names (help through groups)
     tops.append(Group("S12", [("Hw", "S7", False), ("Nested", "S9", False), ("Opts", "S8", False)]))
+    # names that diverge inside characters sharing their lead byte (а/б = D0 B0/D0 B1, 記/誌 = E8 A8 98/E8 AA 8C,
+    # 😀/😁 = F0 9F 98 80/81): the common continuation must stop on a character boundary
+    tops.append(add(Enum("S19", [
+        Cmd("Zhaba", name="жаба"),
+        Cmd("Zhban", [Field("n", "u8", optional=True)], name="жбан"),
+        Cmd("Ki", name="日記x"),
+        Cmd("Shi", name="日誌y"),
+        Cmd("Grin", name="e😀"),
+        Cmd("Beam", name="e😁"),
+    ])))
     # 13..: random over a tiny syllable alphabet
     n_random = 5
     for i in range(n_random):
